@@ -44,7 +44,6 @@ Datasets == DOMAIN final
 Load ==
   /\ phase = "load" /\ l <= Len(Trace)
   /\ l' = l + 1
-  /\ TLCSet(1, l)
   /\ CASE Event.k = "op" ->
             /\ ops' = ops \cup {[c |-> Event.c, n |-> Event.n, parts |-> Event.parts]}
             /\ UNCHANGED <<final, counts, pages, edges, held, bad>>
@@ -73,6 +72,7 @@ Load ==
             /\ counts' = [d \in DOMAIN counts \cup {Event.ds} |-> IF d = Event.ds THEN Event.items ELSE counts[d]]
             /\ UNCHANGED <<ops, final, pages, edges, held, bad>>
   /\ UNCHANGED <<phase, model, cnext, applied, bounds>>
+  /\ TLCSet(1, l)        \* last conjunct: only a line that was consumable moves the high-water mark
 
 \* lock-order graph of the observed acquisitions must be acyclic (a cycle is a possible deadlock)
 Names == { e[1] : e \in edges } \cup { e[2] : e \in edges }
